@@ -79,4 +79,68 @@ theorem conversions_silent (env : Env) (c : Code) (p : Option DynParts) (hold : 
     (step env c p hold .toDyn).trace = [] ∧ (step env c p hold .toDyn).drops = [] := by
   refine ⟨?_, ?_, ?_, ?_⟩ <;> (simp only [step]; repeat (first | rfl | split))
 
+/-- the typed machine inside whatever the caller holds -/
+def Holder.tm? : Holder → Option TM
+  | .typed tm => some tm
+  | .dyn ⟨some (_, tm)⟩ => some tm
+  | _ => none
+
+def Op.isConversion : Op → Bool
+  | .into _ | .toDyn => true
+  | _ => false
+
+/-- **One conversion** (successful or refused, in either direction) leaves the machine itself — state,
+    context, every data slot — exactly as it was, runs no hook and drops nothing. -/
+theorem conversion_step (m : Machine) (env : Env) (hold : Holder) (op : Op) (hc : Op.isConversion op = true)
+    (hwf : ∀ tm, Holder.tm? hold = some tm → tm.state ∈ m.states) :
+    Holder.tm? (step env m.code (some (partsOf m)) hold op).holder = Holder.tm? hold ∧
+    (step env m.code (some (partsOf m)) hold op).trace = [] ∧ (step env m.code (some (partsOf m)) hold op).drops = [] := by
+  cases op with
+  | into s =>
+    cases hold with
+    | typed tm => exact ⟨rfl, rfl, rfl⟩
+    | gone => exact ⟨rfl, rfl, rfl⟩
+    | dyn d =>
+      simp only [step]
+      cases hfx : (partsOf m).extract.find? (·.2.1 = s) with
+      | none => exact ⟨rfl, rfl, rfl⟩
+      | some x =>
+        obtain ⟨_, _, variant⟩ := x
+        simp only
+        cases hx : dynExtract variant d with
+        | ok tm =>
+          have := ((extract_iff variant d).1 tm).mp hx
+          obtain ⟨inner⟩ := d
+          simp only at this
+          subst this
+          exact ⟨rfl, rfl, rfl⟩
+        | error d' =>
+          have := (extract_iff variant d).2 d' hx
+          subst this
+          exact ⟨rfl, rfl, rfl⟩
+  | toDyn =>
+    cases hold with
+    | dyn d => exact ⟨rfl, rfl, rfl⟩
+    | gone => exact ⟨rfl, rfl, rfl⟩
+    | typed tm =>
+      simp only [step]
+      rw [(into_dynamic_state m tm (hwf tm rfl)).1]
+      exact ⟨rfl, rfl, rfl⟩
+  | _ => simp [Op.isConversion] at hc
+
+/-- **Any chain of conversions is lossless.** -/
+theorem conversion_chain (m : Machine) (env : Env) :
+    ∀ (ops : List Op) (hold : Holder), (∀ op ∈ ops, Op.isConversion op = true) →
+      (∀ tm, Holder.tm? hold = some tm → tm.state ∈ m.states) →
+      Holder.tm? (ops.foldl (fun h op => (step env m.code (some (partsOf m)) h op).holder) hold) = Holder.tm? hold := by
+  intro ops
+  induction ops with
+  | nil => intro hold _ _; rfl
+  | cons op rest ih =>
+    intro hold hall hwf
+    simp only [List.foldl_cons]
+    obtain ⟨h1, _, _⟩ := conversion_step m env hold op (hall op (by simp)) hwf
+    rw [ih _ (fun o ho => hall o (by simp [ho])) (by rw [h1]; exact hwf), h1]
+
+
 end SMV.C10
